@@ -727,6 +727,11 @@ def enum_cases(rng, per_op, deep):
             return a, ("L", "i", rng.choice([a[2] - 1 if a[2] > al.INT_MIN else a[2], a[2] + 1 if a[2] < al.INT_MAX else a[2]]))
         return a, leaf()
 
+    def br(t):
+        # both branches of ?: must have the same type: an enumerator reference (its own enum
+        # type) is brought to int first
+        return ("P", ("B", "add", t, ("L", "i", 0))) if (t[0] == "L" and t[1] == "e") else t
+
     def cmp_tree():
         op = rng.choice(["lt", "gt", "lte", "gte"])
         a, b = pair(op)
@@ -743,7 +748,7 @@ def enum_cases(rng, per_op, deep):
             return ("P", ("B", op, int_tree(d - 1), int_tree(d - 1)))
         if r < 0.7:
             return ("P", ("U", rng.choice(["neg", "bnot"]), int_tree(d - 1)))
-        return ("P", ("C", bool_tree(d - 1), int_tree(d - 1), int_tree(d - 1)))
+        return ("P", ("C", bool_tree(d - 1), br(int_tree(d - 1)), br(int_tree(d - 1))))
 
     def bool_tree(d):
         if d == 0 or rng.random() < 0.5:
@@ -774,12 +779,12 @@ def enum_cases(rng, per_op, deep):
         out.append(as_int_tree(("B", rng.choice(["and", "or"]), cmp_tree(), cmp_tree()), True))
         out.append(as_int_tree(("U", "not", cmp_tree()), True))
         out.append(as_int_tree(("B", rng.choice(["eq", "neq"]), cmp_tree(), cmp_tree()), True))
-        out.append(("C", cmp_tree(), leaf(), leaf()))
+        out.append(("C", cmp_tree(), br(leaf()), br(leaf())))
         # a division by zero in the operand that is never evaluated
         z = ("P", ("B", "lt", ("P", ("B", rng.choice(["div", "mod"]), leaf(), ("L", "i", 0))), leaf()))
         b = rng.randrange(2)
         out.append(as_int_tree(("B", rng.choice(["and", "or"]), ("L", "b", b), z), True))
-        out.append(("C", ("L", "b", b), leaf(), ("P", ("B", "div", leaf(), ("L", "i", 0)))))
+        out.append(("C", ("L", "b", b), br(leaf()), ("P", ("B", "div", leaf(), ("L", "i", 0)))))
     for k in range(deep):
         t = int_tree(rng.choice([2, 2, 3]))
         out.append(t[1] if t[0] == "P" else t)
